@@ -130,4 +130,111 @@ theorem sstep_n (s s' : SState) (t : Tok) (ev : List String) (h : sstep s t = so
     | (simp at h; done)
     | (injection h with h; injection h with h _; subst h; rfl)
 
+/-! ### per-thread order -/
+
+/-- thread at `pc` has already dealt with handler `j` in its current call -/
+def past : SPc → Nat → Prop
+  | .idle, _ => True
+  | .disp _ j', j => j < j'
+  | .locked _ j' _, j => j ≤ j'
+
+def inCall : SPc → Bool
+  | .idle => false
+  | _ => true
+
+/-- ordering invariant of the concurrent synchronous model (both variants) -/
+structure SOrd (s : SState) : Prop where
+  cur  : ∀ i, inCall (s.pc i) = true → 1 ≤ s.cnt i
+  hist : ∀ j, ∀ e ∈ s.hist j, e.seq < s.cnt e.tid ∧ (e.seq + 1 = s.cnt e.tid → past (s.pc e.tid) j)
+  ord  : ∀ j, (s.hist j).Pairwise (fun a b => a.tid = b.tid → a.seq < b.seq)
+
+theorem sord_init (v : Variant) (lg : Logger) (n : Nat) (prog : Nat → List (Env × Call)) :
+    SOrd (sinit v lg n prog) :=
+  ⟨fun i h => by simp [sinit, inCall] at h, fun j e h => by simp [sinit] at h, fun j => by simp [sinit]⟩
+
+theorem sstep_sord (s s' : SState) (t : Tok) (ev : List String) (inv : SOrd s)
+    (h : sstep s t = some (s', ev)) : SOrd s' := by
+  obtain ⟨cur, hist, ord⟩ := inv
+  unfold sstep at h
+  simp only at h
+  split at h
+  · simp at h
+  · split at h
+    · split at h
+      · simp at h
+      · split at h <;> (injection h with h; injection h with h _; subst h)
+        · refine ⟨?_, ?_, ord⟩ <;> (simp only [upd]) <;> grind [past, inCall]
+        · refine ⟨?_, ?_, ord⟩ <;> (simp only [upd]) <;> grind [past, inCall]
+    · rename_i m j hpc
+      have hc := cur t.tid (by rw [hpc]; rfl)
+      split at h
+      · injection h with h; injection h with h _; subst h
+        refine ⟨?_, ?_, ord⟩ <;> (simp only [upd]) <;> grind [past, inCall]
+      · split at h
+        · injection h with h; injection h with h _; subst h
+          refine ⟨?_, ?_, ord⟩ <;> (simp only [upd]) <;> grind [past, inCall]
+        · split at h
+          · injection h with h; injection h with h _; subst h
+            refine ⟨?_, ?_, ord⟩ <;> (simp only [upd]) <;> grind [past, inCall]
+          · injection h with h; injection h with h _; subst h
+            refine ⟨?_, ?_, ord⟩ <;> (simp only [upd]) <;> grind [past, inCall]
+          · split at h
+            · simp at h
+            · injection h with h; injection h with h _; subst h
+              refine ⟨?_, ?_, ?_⟩
+              · simp only [upd]; grind [past, inCall]
+              · intro j' e he
+                simp only [upd] at he ⊢
+                by_cases hj : j' = j
+                · subst hj
+                  simp only [if_true, List.mem_append, List.mem_singleton] at he
+                  rcases he with he | he
+                  · have := hist j' e he
+                    by_cases hti : e.tid = t.tid
+                    · simp only [hti, if_true] at this ⊢
+                      rw [hpc] at this
+                      refine ⟨this.1, fun h => ?_⟩
+                      have := this.2 h
+                      simp [past] at this
+                    · simp only [hti, if_false]; exact this
+                  · subst he
+                    simp only [if_true]
+                    exact ⟨by omega, fun _ => by simp [past]⟩
+                · simp only [hj, if_false] at he
+                  have := hist j' e he
+                  by_cases hti : e.tid = t.tid
+                  · simp only [hti, if_true] at this ⊢
+                    rw [hpc] at this
+                    refine ⟨this.1, fun h => ?_⟩
+                    have := this.2 h
+                    simp only [past] at this ⊢
+                    omega
+                  · simp only [hti, if_false]; exact this
+              · intro j'
+                simp only [upd]
+                by_cases hj : j' = j
+                · subst hj
+                  simp only [if_true]
+                  rw [List.pairwise_append]
+                  refine ⟨ord j', by simp, ?_⟩
+                  intro a ha b hb hab
+                  simp at hb; subst hb
+                  simp only at hab ⊢
+                  have := hist j' a ha
+                  rw [hab, hpc] at this
+                  have h2 : ¬ (a.seq + 1 = s.cnt t.tid) := fun h => by
+                    have := this.2 h; simp [past] at this
+                  omega
+                · simp only [hj, if_false]; exact ord j'
+    · rename_i m j r rs hpc
+      injection h with h; injection h with h _; subst h
+      refine ⟨?_, ?_, ord⟩ <;> (simp only [upd]) <;> grind [past, inCall]
+    · rename_i m j hpc
+      injection h with h; injection h with h _; subst h
+      refine ⟨?_, ?_, ord⟩ <;> (simp only [upd]) <;> grind [past, inCall]
+
+theorem sord_reach (v : Variant) (lg : Logger) (n : Nat) (prog : Nat → List (Env × Call)) (s : SState)
+    (hr : Reach sstep (sinit v lg n prog) s) : SOrd s :=
+  Reach.inv SOrd (sord_init v lg n prog) (fun s t s' ev inv h => sstep_sord s s' t ev inv h) s hr
+
 end MgProof.C16
